@@ -8,6 +8,12 @@ Shape of one entry of the generated network table (`Gen/Networks.lean`, written 
 -/
 namespace Pycoin.Addr
 
+/-- which hash supplies the four checksum bytes of a Base58Check text: `double_sha256` (`encoding/b58.py`,
+`parseable_str.parse_b58_double_sha256`) or `groestlHash` (`coins/groestlcoin/hash.py`: the Groestlcoin family).
+Found per network and per code path by the translator, by probing (translate/gen_networks.py). -/
+inductive HashKind | sha256d | groestl
+  deriving Repr, DecidableEq
+
 structure Network where
   module : String
   symbol : String
@@ -38,8 +44,17 @@ structure Network where
   outBip84Pub : Option Bytes
   parseApi : String
   txClass : String
-  /-- Base58Check with double SHA-256 on both the producing and the parsing side (false for the Groestlcoin family) -/
-  b58DoubleSha : Bool
+  /-- checksum hash `parse.parse_b58_hashed` accepts (`ParseAPI`: double SHA-256; `GRSParseAPI`: Groestl) -/
+  hashParse : HashKind
+  /-- checksum hash of `address.b2a` (what `for_p2pkh` / `for_p2sh` write) -/
+  hashAddr : HashKind
+  /-- checksum hash of the `wif_for_blob` closure; for this and the next three: when the closure has no prefix it raises
+  before hashing and the translator reports the parse side's kind (unobservable) -/
+  hashWif : HashKind
+  /-- checksum hash of the `bip32_as_string` / `bip49_as_string` / `bip84_as_string` closures -/
+  hashBip32 : HashKind
+  hashBip49 : HashKind
+  hashBip84 : HashKind
   /-- parser entry points replaced on the instance by `none_parser` (grs.py, when `groestlcoin_hash` is not installed) -/
   disabled : List String
   deriving Repr, DecidableEq
